@@ -141,7 +141,7 @@ def gen_cases(unit, ctx):
                 if lib.well_formed([n1, n2]):
                     yield {"steps": steps, "notes": _mk([n1, n2]), "events": []}
     elif kind == "events":
-        evs = [["ts", 3, 4], ["ks", "G"]]
+        evs = [["ts", 3, 4], ["ks", "G"], ["cc", 64, 100], ["pc", 5]]
         ticks = range(0, 2 * S + 3)
         notes_opts = [[]] + [[n] for n in _alpha(ctx, [0, S - 1, S + 1], [1, S], [(p, c0)])]
         for ns in notes_opts:
@@ -149,9 +149,9 @@ def gen_cases(unit, ctx):
                 for e1 in evs:
                     ev1 = [e1[0], t1] + e1[1:]
                     yield {"steps": steps, "notes": _mk(ns), "events": [ev1]}
-                    if e1[0] == "ts":
+                    if e1[0] in ("ts", "cc"):
                         for t2 in ticks:
-                            yield {"steps": steps, "notes": _mk(ns), "events": [ev1, ["ks", t2, "G"]]}
+                            yield {"steps": steps, "notes": _mk(ns), "events": [ev1, ["ks", t2, "G"] if e1[0] == "ts" else ["pc", t2, 7]]}
     elif kind == "triples":
         cell = _alpha(ctx, range(S - 2, S + 3), [1, 2, S] if quick else [1, 2, 3, S - 1, S, S + 1])
         i = unit[2]
